@@ -392,3 +392,36 @@ Example bad_pieces_loses_data :
   concat (bad_pieces 4 [1; 2; 3; 4; 5; 6; 7]) = [1; 2; 3; 4; 5; 6; 7] /\
   concat (bad_pieces 4 [1; 2; 3; 4; 5; 6; 7; 8]) = [1; 2; 3; 4] /\ concat (bad_pieces 4 [1; 2; 3; 4]) = [].
 Proof. vm_compute. repeat split; reflexivity. Qed.
+
+(* ------------------------------------------------------------------ the receiver is NAME-AGNOSTIC *)
+(* for every list of (name, content) metadata messages - names of ANY shape: leading dots (".prog-wrapped.sym"),
+   several dots, "..x", blanks, long - with pairwise different names, the received directory holds exactly those
+   names with those contents (beside default.opts).  The receiver never inspects a file name. *)
+Lemma metadata_any_names fx k d L s :
+  NoDup (map fst L) -> (forall e, In e L -> fst e <> n_default_opts) ->
+  mkdir_name fx d (clients s) = Some d -> create_directory d (fs s) d = Some fresh_dir ->
+  exists s' R, run fx (map (pair k) (MDir d :: map msg_of_file L ++ [MEnd])) s = Some s' /\ fs s' d = Some R /\
+    forall f, flookup f R = if list_eqb f n_default_opts then Some [] else flookup f L.
+Proof.
+  intros ND A MK C.
+  destruct (same_as_local fx k d (map msg_of_file L) s) as [s' [R [F _]]]; [|exact MK|exact C|].
+  - clear. induction L as [|e L IH]; [reflexivity|exact IH].
+  - exists s', (local_dir (map msg_of_file L)). split; [exact R|]. split; [exact F|].
+    intros f. unfold local_dir. rewrite flookup_fold, written_files, (named_nodup f L ND).
+    unfold fresh_dir. cbn [flookup]. destruct (list_eqb_spec f n_default_opts) as [->|N].
+    + assert (Z : flookup n_default_opts L = None).
+      { destruct (flookup n_default_opts L) as [c|] eqn:E; [|reflexivity]. exfalso.
+        apply flookup_in in E. apply in_map_iff in E. destruct E as [e [E I]]. apply (A e I E). }
+      rewrite Z. reflexivity.
+    + destruct (flookup f L) as [c|]; [|reflexivity]. cbn [extend concat]. rewrite app_nil_r. reflexivity.
+Qed.
+
+Definition L_dots : dirent :=
+  [(str ".prog-wrapped.sym", [1]); (str ".libx.so.sym", [2]); (str "..x.dbg", [3]); (str "....sym", [4]); (str ".uftrace.log", [5])].
+Example metadata_any_names_ex :
+  NoDup (map fst L_dots) /\ forallb (fun e => negb (list_eqb (fst e) n_default_opts)) L_dots = true /\
+  forallb (fun e => wf_msg (msg_of_file e)) L_dots = true.
+Proof.
+  split; [|split; vm_compute; reflexivity].
+  repeat constructor; cbn; intros H; repeat (destruct H as [H|H]; [vm_compute in H; discriminate|]); exact H.
+Qed.
